@@ -266,7 +266,11 @@ class ModelKernel:
                 return EEXIST
             self.spd[key] = req
         elif t == XFRM_MSG_FLUSHSA:
-            self.sad.clear()
+            # kernel semantics (xfrm_id_proto_match): 0 = every protocol, 255 (IPSEC_PROTO_ANY) = AH / ESP / IPCOMP,
+            # anything else = exactly that protocol
+            p = req.get('proto', 0)
+            for key in [k for k in self.sad if p == 0 or k[1] == p or (p == 255 and k[1] in (50, 51, 108))]:
+                del self.sad[key]
         elif t == XFRM_MSG_FLUSHPOLICY:
             self.spd.clear()
         return 0
